@@ -16,7 +16,9 @@ package certmagic
 // predict all of it exactly. Monitors: two workers at once; a call that completes later than
 // the worker's exit without having timed out; a call exceeding the documented bound; an
 // expired certificate returned while a renewal is in flight; an empty certificate with a nil
-// error.
+// error. c13RunLate adds storage latency on the side of handshakes that are not the worker: they take
+// the certificate out of the cache while the worker is in the issuer and come back from their
+// storage look-up just after it has finished (the finished work must not be done again).
 
 import (
 	"context"
@@ -636,6 +638,260 @@ func c13Transformer(t *testing.T, o *vOut, ca *vCA) {
 	}
 }
 
+// Storage latency on the side of a handshake that is NOT the worker. The worker (a handshake, or
+// the background renewal a handshake started) is held inside the issuer; s further handshakes
+// arrive while it works, take the certificate that is then in the cache, and are each delayed at
+// their own storage look-up ("is the certificate still in storage?") until just after the worker
+// has finished, stored and cached its result and removed its wait channel; w more handshakes
+// arrive together with them and wait the ordinary way. The delayed handshakes come back from
+// storage holding a copy of the certificate that the worker has meanwhile replaced and find no
+// worker to wait for: whatever they do next, the work that has just been done for them is not done
+// again. Judged here (the expectations are stated by the scenario, not computed by the library):
+// the issuer is asked once per piece of work (once when the worker succeeds; when it fails, by at
+// most one further goroutine: the second wave's worker), never by two goroutines at a time;
+// nobody is answered with an expired certificate once the renewal has succeeded; every call
+// returns, a delayed one within the waiter's two minutes of its release; both wait-channel maps
+// are empty at the end.
+type c13Late struct {
+	kind    string // renewExpired | renewWindow
+	outcome string // ok | err
+	holdFor time.Duration
+	s, w    int // handshakes delayed in storage / ordinary arrivals while the worker is held
+}
+
+func (s c13Late) String() string {
+	return fmt.Sprintf("late-from-storage %s %s %d %d %d", s.kind, s.outcome, int64(s.holdFor), s.s, s.w)
+}
+
+func c13RunLate(t *testing.T, o *vOut, ca *vCA, sc c13Late) {
+	synctest.Test(t, func(t *testing.T) {
+		st := vNewMem()
+		iss := vNewIssuer("vi", ca)
+		rec := hsNewRec(st, iss)
+		var mu sync.Mutex
+		issuerGate := make(chan struct{}) // holds the next order while armed
+		armed := true
+		storageGate := make(chan struct{}) // holds the look-ups of the delayed handshakes
+		workerHeld, delayLookups := false, false
+		delayed := map[int64]bool{}
+		issueCalls, inIssuer, maxInIssuer := 0, 0, 0
+		issuingG := map[int64]bool{}
+		iss.Behave = func(n int, names []string) error {
+			mu.Lock()
+			inIssuer--
+			mu.Unlock()
+			if sc.outcome == "ok" {
+				return nil
+			}
+			return ErrNoRetry{Err: fmt.Errorf("verif: issuer says no")}
+		}
+		rec.OnIssue = func(n int, names []string) {
+			g := hsGoID()
+			mu.Lock()
+			issueCalls++
+			issuingG[g] = true
+			inIssuer++
+			if inIssuer > maxInIssuer {
+				maxInIssuer = inIssuer
+			}
+			hold, ch := armed, issuerGate
+			if hold {
+				armed, workerHeld = false, true
+			}
+			mu.Unlock()
+			if hold {
+				<-ch
+			}
+		}
+		rec.OnStore = func(n int, kind, key string) {
+			if kind != "Exists" {
+				return
+			}
+			g := hsGoID()
+			mu.Lock()
+			hold := delayLookups && !delayed[g]
+			if hold {
+				delayed[g] = true
+			}
+			mu.Unlock()
+			if hold {
+				<-storageGate
+			}
+		}
+		od := &OnDemandConfig{DecisionFunc: rec.Decision(func(string) bool { return true })}
+		cache, cfg := vNewCfg(st, []Issuer{iss}, func(cf *Config, co *CacheOptions) {
+			cf.OnDemand = od
+			co.RenewCheckInterval = 100000 * time.Hour
+			co.OCSPCheckInterval = 100000 * time.Hour
+		})
+		defer cache.Stop()
+		hsQuietMaintenance(cache)
+		state := "expired"
+		if sc.kind == "renewWindow" {
+			state = "window"
+		}
+		cur := hsMakeBundle(ca, c13Name, state, false)
+		hsStoreBundle(st, iss.IssuerKey(), c13Name, cur)
+		if _, err := cfg.CacheManagedCertificate(context.Background(), c13Name); err != nil {
+			t.Fatal(err)
+		}
+		rec.Mark()
+		t0 := time.Now()
+		type call struct {
+			g          int64
+			start, end time.Duration
+			done       bool
+			res        string
+			expired    bool
+		}
+		var calls []*call
+		var wg sync.WaitGroup
+		launch := func() {
+			c := &call{start: time.Since(t0)}
+			mu.Lock()
+			calls = append(calls, c)
+			mu.Unlock()
+			cctx, endOfHandshake := context.WithCancel(context.Background())
+			wg.Add(1)
+			go func() {
+				defer wg.Done()
+				defer endOfHandshake()
+				g := hsGoID()
+				cert, err := cfg.GetCertificateWithContext(cctx, hsHello(c13Name))
+				mu.Lock()
+				defer mu.Unlock()
+				c.g = g
+				c.end = time.Since(t0)
+				c.done = true
+				c.res = hsResult(cert, err, cur.leaf, nil, nil)
+				c.expired = err == nil && cert != nil && cert.Leaf != nil && time.Now().After(cert.Leaf.NotAfter)
+			}()
+		}
+		replay := map[string]any{"script": sc.String()}
+		// the worker-to-be, held in the issuer
+		launch()
+		synctest.Wait()
+		mu.Lock()
+		staged := workerHeld
+		delayLookups = staged
+		mu.Unlock()
+		if !staged {
+			o.Mon("C13 nobody-performs-the-work", replay)
+		}
+		// the handshakes that will be late, each held at its storage look-up
+		for i := 0; i < sc.s && staged; i++ {
+			launch()
+		}
+		synctest.Wait()
+		mu.Lock()
+		delayLookups = false
+		nDelayed := len(delayed)
+		mu.Unlock()
+		// ordinary arrivals
+		for i := 0; i < sc.w; i++ {
+			launch()
+		}
+		synctest.Wait()
+		time.Sleep(sc.holdFor)
+		synctest.Wait()
+		mu.Lock()
+		armed = false
+		mu.Unlock()
+		close(issuerGate)
+		synctest.Wait()
+		for i := 0; i < 400 && len(hsMapsLeft()) > 0; i++ {
+			time.Sleep(time.Second)
+			synctest.Wait()
+		}
+		// the worker has finished: only now does storage answer the delayed handshakes
+		// (should one of them have work to do — the worker failed — it is held in the issuer until all
+		// of them have come back, so that who works and who waits does not depend on the Go scheduler)
+		tLate := time.Since(t0)
+		mu.Lock()
+		issuerGate, armed = make(chan struct{}), true
+		secondGate := issuerGate
+		mu.Unlock()
+		close(storageGate)
+		synctest.Wait()
+		mu.Lock()
+		armed = false
+		mu.Unlock()
+		close(secondGate)
+		synctest.Wait()
+		time.Sleep(30 * time.Minute)
+		synctest.Wait()
+		wg.Wait()
+		left := hsMapsLeft()
+		if len(left) > 0 {
+			hsClearMaps()
+			replay["left"] = left
+			o.Mon("C13 wait-channel-maps-not-empty", replay)
+		}
+		mu.Lock()
+		defer mu.Unlock()
+		replay["issuer_calls"], replay["goroutines_calling_issuer"], replay["delayed_in_storage"] = issueCalls, len(issuingG), nDelayed
+		renewed := false
+		for _, c := range calls {
+			if c.done && c.res == "new" {
+				renewed = true
+			}
+		}
+		for _, c := range calls {
+			if !c.done {
+				o.Mon("C13 call-never-completed", replay)
+				continue
+			}
+			if c.expired && sc.outcome == "ok" && renewed {
+				o.Mon("C13 expired-certificate-served-while-renewal-in-flight", replay)
+			}
+			if c.res == "empty" {
+				o.Mon("C13 empty-certificate-nil-error", replay)
+			}
+			if delayed[c.g] && c.end > tLate+2*time.Minute+time.Millisecond {
+				o.Mon("C13 waiter-exceeds-two-minutes", replay)
+			}
+			if sc.kind == "renewWindow" && !delayed[c.g] && c.end != c.start {
+				o.Mon("C13 call-blocked-while-unexpired-certificate-is-renewed", replay)
+			}
+		}
+		if sc.outcome == "ok" && staged && issueCalls > 1 {
+			// the worker's order succeeded and its certificate is in storage and in the cache
+			o.Mon("C13 finished-work-repeated-by-handshake-delayed-in-storage", replay)
+		}
+		if len(issuingG) > 2 {
+			o.Mon("C13 more-than-one-handshake-per-wave-asks-the-issuer", replay)
+		}
+		if maxInIssuer > 1 {
+			o.Mon("C13 two-workers", replay)
+		}
+		o.Stat("late_from_storage_scenarios", 1)
+		o.Stat("late_from_storage_calls_checked", len(calls))
+		if nDelayed > 0 {
+			o.Stat("late_from_storage_staged", 1)
+		}
+	})
+}
+
+func c13LateScripts(thorough bool) []c13Late {
+	var out []c13Late
+	sizes := [][2]int{{1, 0}, {2, 0}, {1, 3}, {5, 2}}
+	holds := []time.Duration{0, time.Second, 30 * time.Second}
+	if thorough {
+		sizes = append(sizes, [2]int{16, 0}, [2]int{9, 20}, [2]int{40, 20})
+		holds = append(holds, time.Millisecond, 80*time.Second)
+	}
+	for _, k := range []string{"renewExpired", "renewWindow"} {
+		for _, oc := range []string{"ok", "err"} {
+			for _, h := range holds {
+				for _, sz := range sizes {
+					out = append(out, c13Late{kind: k, outcome: oc, holdFor: h, s: sz[0], w: sz[1]})
+				}
+			}
+		}
+	}
+	return out
+}
+
 func c13Scripts(thorough bool) []c13Script {
 	var out []c13Script
 	holds := []time.Duration{0, time.Second, 30 * time.Second, 119 * time.Second, 121 * time.Second, 150 * time.Second}
@@ -719,6 +975,14 @@ func TestVerifC13(t *testing.T) {
 	}
 	for _, s := range scripts {
 		c13Run(t, o, ca, s)
+	}
+	lates := c13LateScripts(vThorough())
+	for i := 0; i < 8 || (vThorough() && i < 200); i++ {
+		lates = append(lates, c13Late{kind: []string{"renewExpired", "renewWindow"}[rng.Intn(2)], outcome: []string{"ok", "ok", "err"}[rng.Intn(3)],
+			holdFor: []time.Duration{0, time.Millisecond, 7 * time.Second, 60 * time.Second}[rng.Intn(4)], s: 1 + rng.Intn(12), w: rng.Intn(12)})
+	}
+	for _, s := range lates {
+		c13RunLate(t, o, ca, s)
 	}
 	_ = tls.VersionTLS13
 }
